@@ -107,6 +107,56 @@ Section Model.
     destruct (assoc (lt_envs lt) nm) as [[[|[|]|] []]|]; try discriminate H; reflexivity.
   Qed.
 
+  (** an environment whose replacement is a template "pre%spost" *)
+  Lemma literals_fmt l : forall s, literals l = Some s -> fmt_tuple l [] = Some s.
+  Proof.
+    induction l as [|[c| |k] r IH]; cbn [literals fmt_tuple]; intros s H; try discriminate H.
+    - now injection H as <-.
+    - destruct (literals r) as [s'|]; [|discriminate H]. injection H as <-. now rewrite (IH s' eq_refl).
+  Qed.
+  Lemma split_pos_fmt l : forall pre post bt, split_pos l = Some (pre, post) ->
+    existsb (fun i => match i with FPos => true | _ => false end) l = true
+    /\ fmt_tuple l [bt] = Some (pre ++ bt ++ post).
+  Proof.
+    induction l as [|[c| |k] r IH]; cbn [split_pos fmt_tuple existsb]; intros pre post bt H; try discriminate H.
+    - destruct (split_pos r) as [[a b]|]; [|discriminate H]. cbn [option_map fst snd] in H. injection H as <- <-.
+      destruct (IH a b bt eq_refl) as [E F]. rewrite F. split; [exact E|reflexivity].
+    - destruct (literals r) as [b|] eqn:L; [|discriminate H]. injection H as <- <-.
+      rewrite (literals_fmt r b L). split; reflexivity.
+  Qed.
+
+  Lemma wrap_env_not_transparent nm pre post : wrap_env lt nm = Some (pre, post) -> transparent_env lt nm = false.
+  Proof.
+    unfold wrap_env, transparent_env, transparent_spec.
+    destruct (assoc (lt_envs lt) nm) as [[[|[|]|] d]|]; try discriminate; reflexivity.
+  Qed.
+
+  Lemma node_text_env_wrap sl st p e m nm a p2 e2 items pre post :
+    wrap_env lt nm = Some (pre, post) ->
+    nt sl st (NEnv p e m nm a (Some (NList p2 e2 items))) =
+    let '(c, st1) := items_text sl st None items in (pre ++ c ++ post, st1).
+  Proof.
+    unfold wrap_env. intros H. cbn [node_text].
+    destruct (assoc (lt_envs lt) nm) as [[[|tmpl|] d]|]; try discriminate H. cbn [t_repl t_discard].
+    destruct (mem_c 37 tmpl && negb (Nat.eqb (length tmpl) 1)) eqn:E; [|discriminate H].
+    destruct tmpl as [|c0 tmpl']; [discriminate E|]. cbv beta iota.
+    destruct (parse_fmt (S (length (c0 :: tmpl'))) (c0 :: tmpl')) as [its|]; [|discriminate H].
+    change ((fix it (sl0 : sls) (st0 : dstate) (prev : option node) (l : list (option node)) {struct l}
+               : str * dstate := _) sl st None items) with (items_text sl st None items).
+    destruct (items_text sl st None items) as [bt st1].
+    destruct (split_pos_fmt its pre post bt H) as [E1 E2]. rewrite E1.
+    change (@cons (list N) bt (@nil (list N))) with (@cons str bt (@nil str)). rewrite E2. reflexivity.
+  Qed.
+
+  (** [\\item] without optional argument *)
+  Lemma node_text_macro_item sl st p e m nm post :
+    item_macro lt nm = true ->
+    nt sl st (NMacro p e m nm post (Some ([[91%N]], [None]))) = (item_text, st).
+  Proof.
+    unfold item_macro. intros H. cbn [node_text].
+    destruct (assoc (lt_macros lt) nm) as [[[| |[]] d]|]; try discriminate H. reflexivity.
+  Qed.
+
   (** specials that are not in the text-spec table: their characters *)
   Lemma node_text_specials_absent sl st p e m ch a :
     assoc (lt_specials lt) ch = None -> nt sl st (NSpecials p e m ch a) = (ch, st).
